@@ -69,8 +69,65 @@ fn semicomplete_family(r: &mut Rng, n: usize) -> Model {
     m
 }
 
+/// Several caller threads use the same operation at the same time, each on
+/// its own input: the answers must still be the single-threaded ones (no
+/// process-wide scratch state). Returns the mismatches found.
+fn concurrent_callers(r: &mut Rng, o: &mut CaseOut, max: usize) -> String {
+    let op = r.below(5);
+    let callers = r.range(2, 4);
+    let mut inputs: Vec<(Model, Model)> = Vec::new();
+    for _ in 0..callers {
+        let n = (*r.pick(&[3usize, 9, 17, 33, 64, 65, 70, 100])).min(max);
+        let dens = *r.pick(&[0.1, 0.5, 0.9]);
+        let a = if op == 3 { semicomplete_family(r, n) } else { gen::random_arcs(r, n, dens) };
+        let n2 = (*r.pick(&[n, n + 1, 5, 40])).min(max).max(1);
+        let b = gen::random_arcs(r, n2, 0.3);
+        inputs.push((a, b));
+    }
+    let names = ["complement", "degree_sequence", "union", "is_semicomplete", "AdjacencyMap::union"];
+    let bad: Vec<String> = std::thread::scope(|s| {
+        let hs: Vec<_> = inputs
+            .iter()
+            .enumerate()
+            .map(|(t, (ma, mb))| {
+                s.spawn(move || {
+                    let mut bad = Vec::new();
+                    let (a, b) = (AdjacencyList::build(ma), AdjacencyList::build(mb));
+                    let (xa, xb) = (AdjacencyMap::build(ma), AdjacencyMap::build(mb));
+                    for rep in 0..4 {
+                        let ok = match op {
+                            0 => a.complement().arcs().eq(ma.complement().arc_list()),
+                            1 => a.degree_sequence().eq((0..ma.n()).map(|v| ma.indeg(v) + ma.outdeg(v))),
+                            2 => a.union(&b).arcs().eq(ma.union(mb).arc_list()),
+                            3 => a.is_semicomplete() == ma.is_semicomplete(),
+                            _ => xa.union(&xb).arcs().eq(ma.union(mb).arc_list()),
+                        };
+                        if !ok {
+                            bad.push(format!("caller {t} repetition {rep}: wrong result on {}", ma.describe()));
+                        }
+                    }
+                    bad
+                })
+            })
+            .collect();
+        hs.into_iter().flat_map(|h| h.join().unwrap_or_else(|_| vec!["a caller thread panicked".to_string()])).collect()
+    });
+    o.check(bad.is_empty(), &format!("concurrent-callers:AdjacencyList::{}", names[op]), || crate::ctx::clip(&bad.join(" | ")));
+    o.bump("concurrent_callers");
+    format!("{} callers of {} at the same time", callers, names[op])
+}
+
 pub fn case(idx: u64, seed: u64, p: &Params, o: &mut CaseOut) {
     let mut r = Rng::for_case(17, seed, idx);
+    if p.usize("concurrent", 1) == 1 && idx % 16 == 5 {
+        let d = concurrent_callers(&mut r, o, p.usize("max_order", 257));
+        o.fp = Fp::new().s("conc").u(idx).0;
+        o.nontrivial = true;
+        if o.want_desc {
+            o.desc = d;
+        }
+        return;
+    }
     let max = p.usize("max_order", 257);
     let op = (idx as usize) % OPS.len();
     let pick_n = |r: &mut Rng| -> usize { (*r.pick(&ORDERS)).min(max) };
